@@ -50,10 +50,13 @@ def run_one(case, r, seed, encoding="utf-8", variant="main"):
         auth.insert(r.randrange(len(auth) + 1), names["alt"])       # the same alternative spelling in the authorized list
     gamma.prime_related(case, keys, sigs, Q)
     before = (twin_canon(env), list(auth), [id(x) for x in env["signatures"].values()])
-    out, exc, printed = lib.call(auth_mod.verify_signable, env, auth, case["thr"], gpg=case["gpg"], encoding=encoding)
+    t = case["thr"]
+    thr = {"int": t, "plus_half": r.choice([t + 0.5, t + 0.999, t + 1e-9]), "minus_half": t - 0.5, "zero": r.choice([0, 0.0, -0.0]), "neg": r.choice([-t, -t - 0.5]),
+           "str": str(t), "null": None, "list": [t]}[case.get("tk", "int")]
+    out, exc, printed = lib.call(auth_mod.verify_signable, env, auth, thr, gpg=case["gpg"], encoding=encoding)
     mutated = (twin_canon(env), list(auth), [id(x) for x in env["signatures"].values()]) != before
     return {"variant": variant, "encoding": encoding, "observed": out, "exc": exc, "allowed": case["allowed"], "mutated": mutated,
-            "concrete": {"envelope": env, "authorized": auth, "threshold": case["thr"], "gpg": case["gpg"]},
+            "concrete": {"envelope": env, "authorized": auth, "threshold": thr, "gpg": case["gpg"]},
             "case": case}
 
 
